@@ -2,6 +2,7 @@ package pongo2
 
 import (
 	"bytes"
+	"fmt"
 )
 
 type nodeFilterCall struct {
@@ -74,6 +75,15 @@ func tagFilterParser(doc *Parser, start *Token, arguments *Parser) (INodeTag, *E
 			return nil, arguments.Error("Expected a filter name (identifier).", nil)
 		}
 		filterCall.name = nameToken.Val
+
+		// Same checks as for a filter applied to a variable: the filter
+		// has to exist and must not be banned in this template set.
+		if !FilterExists(nameToken.Val) {
+			return nil, arguments.Error(fmt.Sprintf("Filter '%s' does not exist.", nameToken.Val), nameToken)
+		}
+		if _, isBanned := doc.template.set.bannedFilters[nameToken.Val]; isBanned {
+			return nil, arguments.Error(fmt.Sprintf("Usage of filter '%s' is not allowed (sandbox restriction active).", nameToken.Val), nameToken)
+		}
 
 		if arguments.MatchOne(TokenSymbol, ":") != nil {
 			// Filter parameter
